@@ -140,6 +140,12 @@ fn gen_codec_plan_a(rng: &mut Rng) -> PlanA {
     if rng.chance(1, 2) {
         p.choices = (0..events).map(|_| rng.u32()).collect();
     }
+    // decoding-parameter skew: the aggregator identifier handed to the share / state decoders is out of range in a way
+    // that agrees with a real identifier in its low byte (or is simply large); decoding must give a value or an error
+    if rng.chance(1, 10) {
+        let nn = p.inst.n;
+        p.skew = Some(Skew { what: "id".into(), who: Vec::new(), value: Hx(Vec::new()), ids: (0..nn).collect(), id_offset: *rng.pick(&[256u64, 256, 512, 65_536, 1 << 32, u64::MAX - 255]), object_level: false });
+    }
     p
 }
 
